@@ -39,6 +39,22 @@ CHECKS = {
              'are classified by independent lexical definitions into must-accept / must-reject / unspecified and compared '
              'with STRICT acceptance, the re-encoded text, TOLERANT verbatim preservation and utils.check_*.',
         note='trusted: python calendar module, reference regular expressions; unspecified band (years<1000, +14MM/-12MM, .5/5., +SI) never reported'),
+    'C16': dict(
+        engine=E3, design_ref='DESIGN.md section 7 C16',
+        technique='exhaustive enumeration of environment answers (every prefix length x every composition into <=3/4 arrivals x '
+                  'stall/close x server configuration) on the real handler over a scripted socket, plus stateless schedule '
+                  'exploration (preemption bound 2) of 2-3 simultaneous connections; oracle: independent MLLP reference; socket '
+                  'model validated against real loopback TCP',
+        text='The real MLLPRequestHandler, driven by the real MLLPServer.process_request_thread over an in-memory socket, is run '
+             'on 14 payload kinds (registered / unregistered / non-HL7 / empty / no start block / garbage before it / bytes or a '
+             'second frame after the end block / undecodable / EB without CR / blank line / UTF-8 / no final CR) for every prefix '
+             'length of the frame (client stall or early close at every byte), every cut of that prefix into at most 3 (4) '
+             'arrivals, and with and without an ERR handler (~700,000 scripts); 2 and 3 simultaneous connections run as threads '
+             'under the baton scheduler with choice points at every library line and socket operation (all schedules with <=2, '
+             'resp. <=1, preemptions). Handler class, text, arguments, reply bytes, exactly-once and closing are compared with a '
+             'reference written from the statement; to_mllp() framing is checked for every version; 16 scripts are replayed '
+             'over real TCP and must agree with the socket model.',
+        note='trusted: socketserver/io/socket of CPython; the socket model (validated on 16 loopback cases, disagreement = harness error)'),
     'C19': dict(
         engine=E3, design_ref='DESIGN.md section 7 C19, section 3.3',
         technique='stateless model checking of the implementation: real threads under a baton scheduler with a choice point '
